@@ -21,7 +21,7 @@ CLAUSE_PROPS = {
     'NoNewTasksAfterStop': ['C11'], 'WaitingStaysAfterStop': ['C11'], 'StopAck': ['C11'], 'TreeCancelled': ['C11'],
     'AttemptBound': ['C08'], 'StopAtFirstSuccess': ['C08'], 'RetryStopsWhenTold': ['C08'], 'RetryExhausted': ['C08'], 'FinalIffLast': ['C08'], 'DelayRespected': ['C08'],
     'WaitBeforeRespected': ['C08'], 'PauseBeforeRespected': ['C08'], 'WaitAfterRespected': ['C08'], 'TimeoutJudged': ['C08'], 'FailOnApplied': ['C08'],
-    'ExpiredFailed': ['C20'], 'NeverExpireFresh': ['C20'], 'NoStuckTaskAtRest': ['C20', 'C01'], 'ItemsTaskCompletes': ['C07', 'C12'],
+    'ExpiredFailed': ['C20'], 'NeverExpireFresh': ['C20'], 'NoStuckTaskAtRest': ['C20', 'C01'], 'ItemsTaskCompletes': ['C07', 'C12'], 'ParentSuccessNeedsChildren': ['C09', 'C12'],
     'RerunRestores': ['C12'], 'SkipApplied': ['C12'], 'RerunReexecutes': ['C12'], 'PartialRerunOnlyFailed': ['C12', 'C07'],
     'ParentMirrorsChild': ['C09', 'C12'], 'CalledDefinition': ['C09'], 'RootAndNamespace': ['C09'],
     'Prescribed': ['C01', 'C02', 'C04', 'C09', 'C10', 'C12'],
